@@ -44,15 +44,17 @@ func Matches(pass *analysis.Pass, qs ...pattern.Pattern) iter.Seq2[ast.Node, *pa
 				continue
 			}
 
-			if len(q.RootCallSymbols) != 0 {
-				index := pass.ResultOf[typeindexanalyzer.Analyzer].(*typeindex.Index)
+			index := pass.ResultOf[typeindexanalyzer.Analyzer].(*typeindex.Index)
+			// Conversions aren't calls as far as typeindex.Calls is concerned,
+			// and types may be referred to via aliases, so symbols that name
+			// types have to be searched for the slow way.
+			isType := func(isym pattern.IndexSymbol) bool {
+				_, ok := lookupIndexSymbol(index, isym).(*types.TypeName)
+				return ok
+			}
+			if len(q.RootCallSymbols) != 0 && !slices.ContainsFunc(q.RootCallSymbols, isType) {
 				for _, isym := range q.RootCallSymbols {
-					var obj types.Object
-					if isym.Type == "" {
-						obj = index.Object(isym.Path, isym.Ident)
-					} else {
-						obj = index.Selection(isym.Path, isym.Type, isym.Ident)
-					}
+					obj := lookupIndexSymbol(index, isym)
 					for c := range index.Calls(obj) {
 						node := c.Node()
 						if m, ok := Match(pass, q, node); ok {
@@ -89,6 +91,20 @@ func Match(pass *analysis.Pass, q pattern.Pattern, node ast.Node) (*pattern.Matc
 	return m, ok
 }
 
+// lookupIndexSymbol returns the object that sym refers to, or nil if the
+// package being analyzed cannot refer to it.
+func lookupIndexSymbol(index *typeindex.Index, sym pattern.IndexSymbol) types.Object {
+	switch {
+	case sym.Type != "":
+		return index.Selection(sym.Path, sym.Type, sym.Ident)
+	case sym.Path == "":
+		// Builtins and other predeclared identifiers don't belong to a package.
+		return types.Universe.Lookup(sym.Ident)
+	default:
+		return index.Object(sym.Path, sym.Ident)
+	}
+}
+
 func CouldMatchAny(pass *analysis.Pass, qs ...pattern.Pattern) bool {
 	index := pass.ResultOf[typeindexanalyzer.Analyzer].(*typeindex.Index)
 	var do func(node pattern.Node) bool
@@ -106,11 +122,7 @@ func CouldMatchAny(pass *analysis.Pass, qs ...pattern.Pattern) bool {
 			}
 			return true
 		case pattern.IndexSymbol:
-			if node.Type == "" {
-				return index.Object(node.Path, node.Ident) != nil
-			} else {
-				return index.Selection(node.Path, node.Type, node.Ident) != nil
-			}
+			return lookupIndexSymbol(index, node) != nil
 		default:
 			panic(fmt.Sprintf("internal error: unexpected type %T", node))
 		}
